@@ -35,7 +35,12 @@ FA = "dask_array.io._from_array"
 IOB = "dask_array.io._base"
 CU = "dask_array._core_utils"
 MODS = [SW, CM, EX, FA, IOB, CU]
-UNITS = [(SW, "supports_native_sliding_window"), (SW, "supports_native_moving_window"),
+OVM = "dask_array._overlap"
+UNITS = [(OVM, "overlap"), (OVM, "boundaries"), (OVM, "periodic"), (OVM, "reflect"), (OVM, "_remove_overlap_boundaries"),
+         (OVM, "_get_overlap_rechunked_chunks"), (OVM, "ensure_minimum_chunksize"), (OVM, "_overlap_internal_chunks"),
+         (OVM, "OverlapInternal._layer"), (OVM, "MapOverlap._lower"), (OVM, "MapOverlap.chunks"), (OVM, "trim_internal"),
+         (OVM, "_trim"), ("dask.layers", "ArrayOverlapLayer._construct_graph"), ("dask_array._chunk", "trim"),
+         (SW, "supports_native_sliding_window"), (SW, "supports_native_moving_window"),
          (SW, "SlidingWindowReduction._block_plan"), (SW, "SlidingWindowReduction.chunks"), (SW, "SlidingWindowReduction._layer"),
          (SW, "MovingWindowReduction._block_plan"), (SW, "MovingWindowReduction._layer"),
          (SW, "_sliding_window_banded_reduce"), (SW, "_sliding_window_block_total"), (SW, "_moving_window_banded_reduce"),
@@ -53,8 +58,9 @@ ASSUMPTIONS = [
     "number of blocks, rank (<=2), axis, reducer (sum, mean) concrete; window, chunk sizes, output position symbolic and unbounded",
     "sliding/moving nodes exist only under the real supports_native_* predicate (their only producer checks it): paths "
     "where it is false are skipped",
-    "float rounding is not modelled (exact reals); NaN-skipping reducers, var, diff/gradient, map_overlap boundaries are "
-    "not decided here",
+    "overlap / map_overlap: boundary kinds none, periodic, reflect with a symbolic depth <= axis length on axis 0 (rank <= 2); "
+    "'nearest' and constant-value boundaries, asymmetric depths, several overlapped arrays are not decided",
+    "float rounding is not modelled (exact reals); var, diff/gradient are not decided here",
 ]
 
 
@@ -234,6 +240,146 @@ def inst_moving(blocks, axis, reducer="nansum", min_count_kind="none"):
                     unit="MovingWindowReduction._block_plan/_layer + _moving_window_banded_reduce", cost=4 ** blocks[axis], wall_s=900)
 
 
+# ------------------------------------------------------------------ overlap / map_overlap
+
+
+def _ident(b):
+    return b
+
+
+def _ov_world(E):
+    from . import catalog
+
+    mods = catalog.MODS + ["dask_array._overlap", "dask_array._map_blocks", "dask_array._chunk", "dask.layers",
+                           "dask_array.creation._ones_zeros", "dask_array.creation._repeat", "dask_array.stacking"]
+    w = world("C19ov", E.symbolic, mods, nodes=True, desugar=(catalog.EX, catalog.CU, catalog.DB),
+              extra=dict(config=Cfg({"array.rechunk.method": "tasks", "array.unify-chunks-policy": "coarse",
+                                     "array.unify-chunks-limit": None, "array.slicing.split-large-chunks": None}),
+                         warnings=catalog._Warn(), plan_rechunk=lambda old, new, *a, **k: [new]),
+              clone_classes=[(catalog.CO, "Array")])
+    w.space.reset()
+    w.ns[catalog.MT]["_LOWER_CACHE"] = {}
+    return w
+
+
+def _padded(X, d, kind, value=None):
+    """NumPy definition of the boundary kinds along axis 0 (np.pad modes wrap / symmetric / edge / constant)"""
+    n = X.shape[0]
+    if kind == "none":
+        return X
+    if kind == "periodic":
+        return np.concatenate([X[n - d:], X, X[:d]], axis=0)
+    if kind == "reflect":
+        left = SArr((d,) + X.shape[1:], lambda idx: X._at((_z(d) - 1 - idx[0],) + tuple(idx[1:])))
+        right = SArr((d,) + X.shape[1:], lambda idx: X._at((_z(n) - 1 - idx[0],) + tuple(idx[1:])))
+        return np.concatenate([left, X, right], axis=0)
+    if kind == "nearest":
+        left = SArr((d,) + X.shape[1:], lambda idx: X._at((z3.IntVal(0),) + tuple(idx[1:])))
+        right = SArr((d,) + X.shape[1:], lambda idx: X._at((_z(n) - 1,) + tuple(idx[1:])))
+        return np.concatenate([left, X, right], axis=0)
+    c = core.SymReal._r(value)
+    pad = SArr((d,) + X.shape[1:], lambda idx: c)
+    return np.concatenate([pad, X, pad], axis=0)
+
+
+def inst_map_overlap(blocks, kind, what):
+    """what: 'identity' -> map_overlap(identity, x, depth, boundary) == x ;
+             'overlap'  -> overlap(x, depth, boundary) == per-block windows of the padded array"""
+    rank = len(blocks)
+
+    def body(E):
+        from . import catalog
+        import dask_array._overlap as OVm
+
+        w = _ov_world(E)
+        p = catalog.source(w, E, "x", blocks)
+        X = p.ref
+        d = E.int("depth", 1)
+        n = X.shape[0]
+        E.assume(d <= n)  # a depth larger than the array is refused (ValueError), see ensure_minimum_chunksize
+        value = 7 if kind == "constant" else None
+        bnd = value if kind == "constant" else kind
+        depth = {a: (d if a == 0 else 0) for a in range(rank)}
+        boundary = {a: (bnd if a == 0 else "none") for a in range(rank)}
+        if what == "identity":
+            node = w.space.make(OVm.MapOverlap, p.node, _ident, [depth], [boundary], True, True, {"dtype": "f8"},
+                                _symx_attrs=dict(_meta=np.empty((0,) * rank)))
+            m = w.fn(catalog.MT, "_materialize")(node, True)
+            dsk = catalog._layers(m)
+            whole, r = run_blocks(E, dsk, m._name, node.chunks, label="map_overlap", kernels=dict(_ident=_ident))
+            E.ensure("advertised-chunks-sum", AND(*[sum(c) == s for c, s in zip(node.chunks, X.shape)]))
+            same_array(E, whole, X, label="identity")
+            return
+        coll = w.fn(catalog.NC, "new_collection")(p.node)
+        out = w.fn("dask_array._overlap", "overlap")(coll, depth, boundary)
+        node = out.expr
+        m = w.fn(catalog.MT, "_materialize")(node, True)
+        dsk = catalog._layers(m)
+        whole, r = run_blocks(E, dsk, m._name, node.chunks, label="overlap")
+        # definition, stated on the chunking the implementation settled on (every chunk must hold the depth)
+        oc = node.chunks[0]
+        k = len(oc)
+        Xp = _padded(X, d, kind, value)
+        if kind == "none":
+            inner = [c - (d if i > 0 else 0) - (d if i < k - 1 else 0) for i, c in enumerate(oc)]
+        else:
+            inner = [c - 2 * d for c in oc]
+        E.ensure("chunks-hold-the-depth", AND(*[c >= d for c in inner]))
+        E.ensure("inner-chunks-sum-to-axis", sum(inner) == n)
+        parts, s = [], 0
+        for i, c in enumerate(inner):
+            if kind == "none":
+                lo = s - (d if i > 0 else 0)
+                hi = s + c + (d if i < k - 1 else 0)
+            else:
+                lo, hi = s, s + c + 2 * d
+            parts.append(Xp[lo:hi])
+            s = s + c
+        same_array(E, whole, np.concatenate(parts, axis=0), label="overlapped")
+
+    def api(values):
+        import dask_array as da
+
+        cs = tuple(tuple(values[f"x{a}_{i}"] for i in range(m)) for a, m in enumerate(blocks))
+        shape = tuple(sum(c) for c in cs)
+        d = values["depth"]
+        if int(np.prod(shape)) > 20000 or d > shape[0]:
+            return dict(ok=False, detail="outside API replay range; unit-level replay stands")
+        data = np.arange(int(np.prod(shape)), dtype="f8").reshape(shape)
+        x = da.from_array(data, chunks=cs)
+        bnd = 7 if kind == "constant" else kind
+        depth = {a: (d if a == 0 else 0) for a in range(rank)}
+        boundary = {a: (bnd if a == 0 else "none") for a in range(rank)}
+        if what == "identity":
+            got = da.map_overlap(lambda b: b, x, depth=depth, boundary=boundary, dtype="f8").compute(scheduler="sync")
+            return dict(ok=bool(np.array_equal(got, data)), detail=f"chunks={cs} depth={d} kind={kind}")
+        from dask_array._overlap import overlap as _ov
+
+        y = _ov(x, depth, boundary)
+        got = y.compute(scheduler="sync")
+        mode = dict(periodic="wrap", reflect="symmetric", nearest="edge", constant="constant", none=None)[kind]
+        if mode is None:
+            padded = data
+        else:
+            padw = [(d, d)] + [(0, 0)] * (rank - 1)
+            padded = np.pad(data, padw, mode=mode, **(dict(constant_values=7) if kind == "constant" else {}))
+        oc = y.chunks[0]
+        k = len(oc)
+        inner = [c - ((d if i > 0 else 0) + (d if i < k - 1 else 0) if kind == "none" else 2 * d) for i, c in enumerate(oc)]
+        parts, s = [], 0
+        for i, c in enumerate(inner):
+            lo, hi = ((s - (d if i > 0 else 0), s + c + (d if i < k - 1 else 0)) if kind == "none" else (s, s + c + 2 * d))
+            parts.append(padded[lo:hi])
+            s += c
+        want = np.concatenate(parts, axis=0)
+        return dict(ok=got.shape == want.shape and bool(np.array_equal(got, want)), detail=f"chunks={cs} depth={d} kind={kind}")
+
+    nm = "x".join(map(str, blocks))
+    return Instance(f"{what}[map_overlap,blocks={nm},boundary={kind}]", body, dict(blocks=blocks, boundary=kind, what=what),
+                    unit="MapOverlap._lower / overlap / boundaries / OverlapInternal / trim_internal", api_replay=api,
+                    cost=6 * max(blocks), wall_s=900)
+
+
 def inst_cum(cls, blocks, axis):
     def body(E):
         import dask_array.reductions._cumulative as CMm
@@ -283,6 +429,17 @@ def instances(tier):
     out.append(inst_moving((3,), 0, "nansum", "sym"))
     out.append(inst_moving((2,), 0, "nanmean"))
     out.append(inst_moving((2, 2), 1, "nansum"))
+    # boundary='constant' builds its padding through creation wrappers defined as closures (not clonable) and 'nearest'
+    # through repeat() (np.linspace(...).round on the chunk boundaries): not decided
+    for kind in ("none", "periodic", "reflect"):
+        out.append(inst_map_overlap((2,), kind, "identity"))
+        out.append(inst_map_overlap((2,), kind, "overlap"))
+    out.append(inst_map_overlap((3,), "none", "identity"))
+    out.append(inst_map_overlap((2, 2), "periodic", "identity"))
+    if not q:
+        for kind in ("none", "periodic", "reflect"):
+            out.append(inst_map_overlap((3,), kind, "overlap"))
+        out.append(inst_map_overlap((2, 2), "none", "overlap"))
     for m in ([1, 2, 3, 4] if q else [1, 2, 3, 4, 5, 6]):
         out.append(inst_cum("CumReduction", (m,), 0))
     out.append(inst_cum("CumReduction", (2, 2), 0))
